@@ -9,6 +9,7 @@ correspondence run (monitors `not_delivered_after_recovery`, `request_flood`,
 `stuck_temporary_unreachable`).
 -/
 import TeosVerif.Props.C05
+import TeosVerif.Lemmas.Tidy
 
 namespace Teos.C13
 open Teos.Client Teos.Plugin
@@ -57,39 +58,44 @@ theorem addReceipt_pending (c : Client) (t : TowerId) (l : Loc) (n : Nat) (r : A
 
 /-! ### the manual retry gate -/
 
-/-- **a manual retry is accepted exactly when** the tower is known and either its retrier is
-idle or (there is no retrier and) its status is unreachable / subscription error; an unknown
-tower and any other status are refused, and a refusal changes nothing. -/
+/-- **a manual retry is accepted exactly when** the tower is known, no retrier is running for
+it, and either its retrier is idle or (there is no retrier and) its status is unreachable /
+subscription error; a running retrier is reported as such; an unknown tower and any other status
+are refused, and a refusal changes nothing. -/
 theorem manual_retry_gate (s : St) (t : TowerId) :
     ((s.manualRetry t).2 = .ok ↔
-      ∃ st, s.status t = some st ∧ (s.idle t = true ∨ st.isRetryable = true)) ∧
+      ∃ st, s.status t = some st ∧ s.running t = false ∧ (s.idle t = true ∨ st.isRetryable = true)) ∧
     ((s.manualRetry t).2 = .errUnknown ↔ s.status t = none) ∧
+    ((s.manualRetry t).2 = .errBeingRetried ↔ (s.status t).isSome = true ∧ s.running t = true) ∧
     ((s.manualRetry t).2 ≠ .ok → (s.manualRetry t).1 = s) := by
   unfold St.manualRetry
   cases hs : s.status t with
   | none => simp
   | some st =>
-    by_cases hi : s.idle t = true
-    · simp [hi]
-    · by_cases hr : st.isRetryable = true
-      · simp [hi, hr]
-      · simp [hi, hr]
+    by_cases hrun : s.running t = true
+    · simp [hrun]
+    · by_cases hi : s.idle t = true
+      · simp [hrun, hi]
+      · by_cases hr : st.isRetryable = true
+        · simp [hrun, hi, hr]
+        · simp [hrun, hi, hr]
 
 /-- in terms of what `listtowers` shows, when an idle retrier always means "unreachable" (the
 states the plugin reaches after fix 4463be4; the correspondence run compares the status after
 every event): accepted exactly for "unreachable" and "subscription error" -/
 theorem manual_retry_documented_states (s : St) (t : TowerId) (st : TStatus)
-    (hs : s.status t = some st) (hidle : s.idle t = true → st = .unreachable) :
+    (hs : s.status t = some st) (hidle : s.idle t = true → st = .unreachable)
+    (hrun : s.running t = false) :
     (s.manualRetry t).2 = .ok ↔ (st = .unreachable ∨ st = .subscriptionError) := by
   rw [(manual_retry_gate s t).1]
   constructor
-  · rintro ⟨st', hst', h⟩
+  · rintro ⟨st', hst', _, h⟩
     rw [hs] at hst'; simp only [Option.some.injEq] at hst'; subst hst'
     rcases h with h | h
     · exact Or.inl (hidle h)
     · cases st <;> simp [TStatus.isRetryable] at h ⊢
   · intro h
-    refine ⟨st, hs, Or.inr ?_⟩
+    refine ⟨st, hs, hrun, Or.inr ?_⟩
     rcases h with h | h <;> subst h <;> rfl
 
 /-! ### delivery -/
@@ -166,12 +172,15 @@ stays pending for the tower, it is shown reachable, and no idle retrier is left 
 theorem delivers_after_recovery (s : St) (t : TowerId) (h : Inv s.client) (sm : Summary)
     (ht : s.client.towers t = some sm) (hst : sm.status ≠ .subscriptionError)
     (hmis : sm.status ≠ .misbehaving)
-    (hb : classify (s.beh t) = .accepted) (hsteady : (s.beh t).once = 0) (hne : sm.pending ≠ []) :
+    (hb : classify (s.beh t) = .accepted) (hsteady : (s.beh t).once = 0)
+    (hnh : (s.beh t).hold = false) (hne : sm.pending ≠ []) :
     let s' := s.retry t (s.pendingOf t)
     (∀ l ∈ sm.pending, (s'.client.store.rcpts t l).isSome = true) ∧
     (∀ l, (t, l) ∉ s'.client.store.pending) ∧
     s'.status t = some .reachable ∧ s'.idle = s.idle := by
   intro s'
+  have hrr : ∀ locs, s.retry t locs = s.retryRun t locs := by
+    intro locs; unfold St.retry St.parks; simp [hnh]
   have hpo : s.pendingOf t = sm.pending := by unfold St.pendingOf; simp [ht]
   obtain ⟨row, r, a1, a2, a3, a4, a5, a6, a7, a8, a9⟩ := h.sync_some t sm ht
   -- the state the retrier starts from
@@ -186,7 +195,8 @@ theorem delivers_after_recovery (s : St) (t : TowerId) (h : Inv s.client) (sm : 
   -- unfold the retrier: one successful call of `run`
   have hrun : s' = (s.withClient ((sendAll c0 t .accepted sm.pending).1.setStatus t .reachable)) := by
     show s.retry t (s.pendingOf t) = _
-    unfold St.retry
+    rw [hrr]
+    unfold St.retryRun
     rw [hpo]
     have he : sm.pending.isEmpty = false := by
       cases hp : sm.pending with
@@ -345,12 +355,14 @@ appointment; the tower is shown reachable with nothing pending -/
 theorem delivers_after_renewal (s : St) (t : TowerId) (h : Inv s.client) (sm : Summary)
     (ht : s.client.towers t = some sm) (hst : sm.status = .subscriptionError)
     (hreg : (s.beh t).reg = .accept) (hb : classify (s.beh t) = .accepted)
-    (hsteady : (s.beh t).once = 0) (hne : sm.pending ≠ []) :
+    (hsteady : (s.beh t).once = 0) (hnh : (s.beh t).hold = false) (hne : sm.pending ≠ []) :
     let s' := s.retry t (s.pendingOf t)
     (∀ l ∈ sm.pending, (s'.client.store.rcpts t l).isSome = true) ∧
     (∀ l, (t, l) ∉ s'.client.store.pending) ∧
     s'.status t = some .reachable := by
   intro s'
+  have hrr : ∀ locs, s.retry t locs = s.retryRun t locs := by
+    intro locs; unfold St.retry St.parks; simp [hnh]
   have hpo : s.pendingOf t = sm.pending := by unfold St.pendingOf; simp [ht]
   have hdown : (s.beh t).down = false := by
     cases hd : (s.beh t).down with
@@ -390,7 +402,8 @@ theorem delivers_after_renewal (s : St) (t : TowerId) (h : Inv s.client) (sm : S
     exact congrArg (·, RunResult.ok) (hcons _ hbeh1)
   have hrun : s' = (s1.withClient ((sendAll s1.client t .accepted sm.pending).1.setStatus t .reachable)) := by
     show s.retry t (s.pendingOf t) = _
-    unfold St.retry
+    rw [hrr]
+    unfold St.retryRun
     rw [hpo]
     have he : sm.pending.isEmpty = false := by
       cases hp : sm.pending with
@@ -424,11 +437,13 @@ theorem run_returns_to_backoff (s : St) (t : TowerId) (l : Loc) (ls : List Loc)
 gives up, goes idle, and the file is exactly what it was -/
 theorem gives_up_keeps_data (s : St) (t : TowerId) (l : Loc) (ls : List Loc) (sm : Summary)
     (ht : s.client.towers t = some sm) (hst : sm.status ≠ .subscriptionError)
-    (hmis : sm.status ≠ .misbehaving) (hsteady : (s.beh t).once = 0)
+    (hmis : sm.status ≠ .misbehaving) (hsteady : (s.beh t).once = 0) (hnh : (s.beh t).hold = false)
     (hb : classify (s.beh t) = .connErr ∨ classify (s.beh t) = .unparsable) :
     let s' := s.retry t (l :: ls)
     s'.client.store = s.client.store ∧ s'.status t = some .unreachable ∧ s'.idle t = true := by
   intro s'
+  have hret : ∀ locs, s.retry t locs = s.retryRun t locs := by
+    intro locs; unfold St.retry St.parks; simp [hnh]
   let s0 := s.withClient (s.client.setStatus t .tempUnreachable)
   have hst0 : s0.status t = some .tempUnreachable := by
     show ((s.client.setStatus t .tempUnreachable).towers t).map (·.status) = _
@@ -441,7 +456,8 @@ theorem gives_up_keeps_data (s : St) (t : TowerId) (l : Loc) (ls : List Loc) (sm
   have : s' = { s0 with client := s0.client.setStatus t .unreachable,
                         idle := fun x => if x = t then true else s0.idle x } := by
     show s.retry t (l :: ls) = _
-    unfold St.retry
+    rw [hret]
+    unfold St.retryRun
     simp only [List.isEmpty_cons, Bool.false_eq_true, ↓reduceIte, St.status, ht, Option.map_some, hst]
     show (match runRetrier 4 s0 t (l :: ls) with
       | (s1, r) => _) = _
@@ -464,9 +480,16 @@ theorem unreachable_tower_not_contacted (s : St) (t : TowerId) (l : Loc) (sm : S
 /-- a retrier created by the handler starts from everything that is pending for the tower (fix
 e54e604), so success means nothing at all is left pending -/
 theorem new_retrier_takes_all_pending (s : St) (t : TowerId) (l : Loc) (s1 : St)
-    (h : hookTower s t l = (s1, true)) :
+    (h : hookTower s t l = (s1, true)) (hrun : s.running t = false) :
     notifyTower s t l = (s1.consumeIf (asked s t l) t).retry t (s1.pendingOf t) := by
-  unfold notifyTower; rw [h]
+  unfold notifyTower; rw [h]; simp [hrun]
+
+/-- a revocation that arrives while the tower's retrier is running is stored and handed to that
+retrier: no second retrier is started -/
+theorem running_retrier_is_fed (s : St) (t : TowerId) (l : Loc) (s1 : St)
+    (h : hookTower s t l = (s1, true)) (hrun : s.running t = true) :
+    notifyTower s t l = s1 := by
+  unfold notifyTower; rw [h]; simp [hrun]
 
 /-- non-vacuity: outage, two revocations, recovery, manual retry: both delivered -/
 example :
@@ -480,5 +503,48 @@ example :
     r.2 = some .ok ∧ r.1.status 0 = some .reachable ∧ r.1.pendingOf 0 = [] ∧
     (r.1.step (.retry 0)).2 = some .errStatus := by
   decide
+
+
+/-! ### truthful status, for every history -/
+
+def runEv : St → List Ev → St
+  | s, [] => s
+  | s, ev :: rest => runEv (s.step ev).1 rest
+
+theorem tidy_runEv : ∀ (evs : List Ev) (s : St), TidyS s → TidyS (runEv s evs) := by
+  intro evs
+  induction evs with
+  | nil => intro s h; exact h
+  | cons ev rest ih => intro s h; exact ih _ (step_tidy s ev h)
+
+/-- **a tower shown reachable has nothing pending** — after any history of registrations,
+notifications, changes of tower behaviour (outages, error kinds, recoveries), manual retries,
+abandons and restarts: whenever `listtowers` says "reachable", no appointment is waiting for that
+tower, neither in the listing nor in the file (the defect repaired by fix e54e604 was exactly a
+counter-example). -/
+theorem reachable_means_nothing_pending (evs : List Ev) (t : TowerId) (sm : Summary) :
+    let s := runEv {} evs
+    s.client.towers t = some sm → sm.status = .reachable →
+    sm.pending = [] ∧ ∀ l, (t, l) ∉ s.client.store.pending := by
+  intro s hs hst
+  have ht := tidy_runEv evs {} TidyS.init
+  have hnm : sm.status ≠ .misbehaving := by rw [hst]; intro e; cases e
+  have hp := (ht.tidy t sm hs hnm).2.2.2 hst
+  refine ⟨hp, ?_⟩
+  intro l hl
+  obtain ⟨_, _, _, _, _, _, _, _, a7, _, _⟩ := ht.inv.sync_some t sm hs
+  have : l ∈ sm.pending := by rw [a7]; exact (mem_locsOf _ _ _).mpr hl
+  rw [hp] at this
+  cases this
+
+/-- and the listing is the file: what is shown pending for a tower is exactly what is stored as
+pending for it (every history) -/
+theorem pending_listing_is_the_store (evs : List Ev) (t : TowerId) (sm : Summary) (l : Loc) :
+    let s := runEv {} evs
+    s.client.towers t = some sm → (l ∈ sm.pending ↔ (t, l) ∈ s.client.store.pending) := by
+  intro s hs
+  have ht := tidy_runEv evs {} TidyS.init
+  obtain ⟨_, _, _, _, _, _, _, _, a7, _, _⟩ := ht.inv.sync_some t sm hs
+  rw [a7]; exact mem_locsOf _ _ _
 
 end Teos.C13
